@@ -25,7 +25,8 @@ CLAIMED = {
             'differential correspondence model/implementation evaluated by vm_compute + Coq-checked boolean checker on implementation output',
             'Proof (Coq 8.16.1) about the hand model Codec/Packet.v for all packets of the stated domain: encode = spec_encode for every '
             'packet, reconstruct o deconstruct = id, decimal round trip, full round trip and interop with the spec-derived decoder '
-            '(json.loads as a named oracle premise, hence "_partial"); the model is tied to src/socketio/packet.py on every run by '
+            '(json.loads as a named oracle premise, hence "_partial", and discharged by the concrete parser Codec/JsonParse.v in '
+            'C01_roundtrip_concrete, that parser being compared with json.loads on every run); the model is tied to src/socketio/packet.py on every run by '
             'differential execution on generated packets and a malformed frame stream (byte-exact frames, equal decoded fields / '
             'exception class), and the checker c01_eval (proved sound) is evaluated inside Coq on what the implementation produced.',
             'Trusted: Coq kernel + vm_compute; the hand model and the sampled correspondence; json.loads as an oracle '
@@ -36,50 +37,66 @@ CLAIMED = {
                'random histories + recipients checker on the packets the implementation queued.', 'DESIGN.md section 6 C03'),
     'C04': srv('Proof about the model of _handle_connect/_handle_disconnect/disconnect (sequential histories) + correspondence + '
                'Coq checker of the four connection outcomes, handler-once, fresh sids and disconnect-handler-exactly-once on the '
-               'implementation; asyncio interleavings are covered by the asyncio scheduler part when present, thread races are C20.',
+               'implementation; every interleaving of 2-3 concurrent terminating causes, and of a CONNECT whose coroutine handler is suspended '
+               'with such causes, on the real AsyncServer under a gate scheduler against the interleaving models Conc/ServerConc.v (GAsync) '
+               'and Conc/ConnConc.v (C04_once_async, C04_connect_in_progress_accept); thread races are C20.',
                'DESIGN.md section 6 C04'),
     'C05': srv('Proof about the model of event dispatch + correspondence + Coq checker (one handler call, one ACK to the sender only).',
                'DESIGN.md section 6 C05'),
     'C06': srv('Proof about the model of ack-id generation and trigger_callback + correspondence + Coq checker (unique ids, callback '
-               'only for the outstanding (client, id), unknown ids without side effect, at most once).', 'DESIGN.md section 6 C06'),
+               'only for the outstanding (client, id), unknown ids without side effect, at most once); call() result shaping; 2-5 overlapping '
+               'call()s / emits with callback with explicit send / timeout / ACK events against Manager/AckOverlap.v (C06_overlap_*).',
+               'DESIGN.md section 6 C06'),
     'C11': srv('Proof about the model (no component mentions a departed transport) + full-state correspondence + Coq checker applied to '
-               'the implementation\'s state dump + object-graph growth measurement.', 'DESIGN.md section 6 C11'),
+               'the implementation\'s state dump + object-graph growth measurement; histories with async_handlers=True whose operations do '
+               'not wait for the handler tasks, judged by the final-state checker at every quiescent point (C11_quiescent).',
+               'DESIGN.md section 6 C11'),
     'C12': srv('Proof about the model (a frame from one transport changes nothing owned by another) + correspondence under a malformed '
-               'stream + Coq checker on bystanders.', 'DESIGN.md section 6 C12'),
+               'stream + Coq checker on bystanders + with/without-offender comparison of the bystanders\' view + allocation guard + a packet '
+               'processed from inside a broadcast\'s send (Server/EmitNested.v, C12_nested_run).', 'DESIGN.md section 6 C12'),
     'C16': srv('Proof about the model of the session store + correspondence + Coq checker replaying a specification store keyed by '
                '(sid, namespace); one open finding (KNOWN_FINDINGS.txt).', 'DESIGN.md section 6 C16'),
     'C13': ('py2coq translation of the four lookup functions from /repo on every run; Coq theorems (generated function = six-level '
-            'precedence spec for all registries/events/namespaces/args) re-proved against the regenerated text; exhaustive run on the real classes',
+            'precedence spec for all registries/events/namespaces/args) re-proved against the regenerated text; ns2coq translation of the '
+            'namespace classes\' trigger_event; theorems over all histories of registrations and events; exhaustive run on the real classes',
             'Proof by translation: the Gallina definitions are regenerated from base_server.py / base_client.py on every run and the '
             'theorems re-checked; plus exhaustive enumeration (2^6 x reserved x unrelated x 6 class/handler kinds) on the real classes '
-            'compared in Coq with spec and generated functions.',
-            'Trusted: Coq kernel; py2coq translator (validated each run by evaluating generated definitions against the real functions); '
-            'hand model of _trigger_event / Namespace.trigger_event tied by the exhaustive correspondence.', 'DESIGN.md section 5, 6 C13'),
+            'compared in Coq with spec and generated functions; sequences of on() / register_namespace() / events over several instances of '
+            'shared Namespace subclasses, observing which object ran (Routing/History.v, C13_*_history_routing).',
+            'Trusted: Coq kernel; py2coq and ns2coq translators (validated each run by evaluating generated definitions against the real '
+            'functions); hand model of _trigger_event tied by the exhaustive correspondence.', 'DESIGN.md section 5, 6 C13'),
     'C17': ('fwd2coq translation of every namespace helper and underlying signature from /repo on every run; Coq theorems per helper '
-            '(forwards_ok for all argument values and all explicit-argument subsets); exhaustive run on the real classes',
+            '(forwards_ok for all argument values and all explicit-argument subsets) and per class over the life of a namespace object '
+            '(attach, register, events dispatched, helper calls during and after dispatch); exhaustive run on the real classes',
             'Proof by translation: helper bodies and underlying signatures are regenerated each run; 30 per-helper theorems + cover + '
-            'soundness re-checked; exhaustive call shapes on the real classes compared in Coq.',
+            'soundness re-checked; class descriptions (constructor writes, namespace a plain attribute, dispatch path writes nothing) '
+            'regenerated and C17_life_* re-checked; exhaustive call shapes and object lives on the real classes compared in Coq.',
             'Trusted: Coq kernel; fwd2coq translator (validated against inspect.signature each run); bind_call model of Python argument '
             'binding (validated against CPython each run).', 'DESIGN.md section 5, 6 C17'),
     'C14': ('direct comparison, inside Coq, of the traces of the threaded and the asyncio member of each pair on the same scenario + '
             'Coq theorems that the comparison is an equivalence and that parity follows from correspondence of both members with one model',
             'The Coq content is thin by nature (parity relates two programs): theorems C14_checker_decides / equivalence / '
-            'C14_parity_by_model; the deciding evidence is the direct comparison of both members on every scenario plus the fact that every '
+            'C14_parity_by_model / C14_pubsub_parity_by_model; the deciding evidence is the direct comparison of both members on every scenario plus the fact that every '
             'pair is compared with one shared deterministic model in the property that owns its driver.',
-            'Trusted: Coq kernel + vm_compute; drivers of the owning properties; handlers inline (async_handlers disabled).',
+            'Trusted: Coq kernel + vm_compute; drivers of the owning properties (server pair incl. nested acks / nested broadcast, clients, '
+            'reconnection, simple clients, pub/sub listener, pub/sub cluster with application handlers, forwarders); handlers inline.',
             'DESIGN.md section 6 C14'),
     'C15': ('Coq theorems about a hand model of the pub/sub listener loop and Redis retry loops + differential correspondence with '
             'PubSubManager / AsyncPubSubManager + Coq-checked checkers on implementation traces',
-            'Proof about the model Listener/Listener.v (totality and compositionality of the loop for all message lists and fault scripts, '
+            'Proof about the model Listener/Listener.v (totality and compositionality of the loop for all message lists and all fault scripts '
+            'of Exception faults - C15_total, with C15_total_except / C15_total_refuted delimiting BaseException faults -, real application '
+            'callbacks incl. a coroutine callback awaiting a cancelled job, '
             'inertness of ineffective messages, echo filter, foreign callbacks, Redis back-off) + correspondence on channel sequences with '
-            'sentinels on both managers + fake redis.',
+            'sentinels on both managers + the real Redis _thread() loops over a subscription-tracking fake broker.',
             'Trusted: Coq kernel + vm_compute; hand model tied by sampled correspondence; pickle/json decode oracle; fake redis module; '
             'the broker is an ordered reliable channel by assumption.', 'DESIGN.md section 6 C15'),
     'C02': ('Coq theorems about a pipe model (sender packing + frames -> receiver reassembly + unpacking) built on the proved C01 round trip + '
             'loopback of the real Client<->Server / AsyncClient<->AsyncServer through the real engine.io codecs, judged in Coq',
             'Proof about E2E/Pipe.v (arguments, acks, call() results, order, both directions, default and msgpack serializers; json / msgpack '
-            'libraries as named pointwise oracle premises, hence "_partial") + bridge theorems to Server.v / Client.v + correspondence on 8 '
-            'configurations with frames compared byte-exact (default) or as dicts (msgpack).',
+            'libraries as named pointwise oracle premises, hence "_partial", the JSON one discharged by the concrete parser in C02_*_concrete) + '
+            'bridge theorems to Server.v / Client.v + acknowledgement-table model E2E/AckTable.v for acknowledgements that arrive after a '
+            'call() timed out (C02_ack_routing, C02_late_ack_own_value) + correspondence on 8 configurations with frames compared byte-exact '
+            '(default) or as dicts (msgpack).',
             'Trusted: Coq kernel + vm_compute; hand models tied by the loopback correspondence; engine.io packet/payload codecs and msgpack are '
             'trusted dependencies; single sender per direction.', 'DESIGN.md section 6 C02'),
     'C08': ('Coq theorems about a hand model of client.py/async_client.py + differential correspondence with Client / AsyncClient over a fake engine.io client + Coq-checked checkers',
@@ -94,9 +111,11 @@ CLAIMED = {
             'Trusted: as C08.', 'DESIGN.md section 6 C09'),
     'C20': ('Coq theorems about a small-step interleaving model of the terminating paths at thread granularity (refutation, characterisation, '
             'safety outside the window) + exhaustive scheduled runs of the real threaded Server',
-            'Proof about Conc/ServerConc.v: C20 is refuted on the pinned tree (two witnesses), every violating schedule goes through the '
-            'check-then-mark window (C20_only_via_double_check), schedules outside it and sequential ones are safe; all interleavings of 2 (thorough: 3) '
-            'terminating actions replayed on the real Server under a baton scheduler and compared with the model. Two open known findings.',
+            'Proof about Conc/ServerConc.v: with the lock of the repaired tree (GLocked) the property holds for ALL schedules, any number of '
+            'tasks and sessions (C20_all_schedules, C20_two_sessions_one_transport); without it (GThread, the pinned tree) it is refuted, every '
+            'violating schedule goes through the check-then-mark window (C20_only_via_double_check) and a try-lock variant is refuted too; all '
+            'interleavings of 2 (thorough: 3) terminating actions on one and on two sessions of a transport replayed on the real Server under a '
+            'baton scheduler (instrumented lock honouring non-blocking acquires) and compared with the model.',
             'Trusted: Coq kernel + vm_compute; hand model and its choice of atomic steps (every manager / transport access); deterministic thread '
             'scheduler wrapping manager accessors, eio.send and handlers.', 'DESIGN.md section 6 C20'),
     'C07': ('Coq theorems about a cluster model (N hosts, one FIFO channel, per-host cursor) refining the single-server model + correspondence with '
@@ -118,9 +137,11 @@ CLAIMED = {
             'transitions socketio relies on; random.random patched to dyadic values.', 'DESIGN.md section 6 C10'),
     'C19': ('Coq theorems about a small-step interleaving model of SimpleClient.receive for all schedules + scheduled runs of the real SimpleClient / AsyncSimpleClient',
             'Proof about the model Simple/SimpleClient.v (FIFO, timeout only if empty, disconnected after drain, termination) for all '
-            'schedules + deterministic scheduled runs of the real classes compared step for step.',
+            'schedules, and about Simple/SimpleTransport.v (what the real Client dispatches for a transport history; received = sent, '
+            'C19_transport_fifo) + deterministic scheduled runs of the real classes, driven directly and through the real Client / AsyncClient '
+            'over a scripted transport, compared step for step. One open known finding (C19_held_back_during_outage_refuted).',
             'Trusted: Coq kernel + vm_compute; hand model and its choice of atomic steps; deterministic schedulers (instrumented events); '
-            'fake Client class.', 'DESIGN.md section 6 C19'),
+            'fake Client class / fake engine.io transport.', 'DESIGN.md section 6 C19'),
 }
 
 READY = {'C01', 'C02', 'C07', 'C08', 'C18', 'C03', 'C04', 'C05', 'C06', 'C09', 'C10', 'C15', 'C19', 'C20', 'C11', 'C12', 'C13', 'C14', 'C16', 'C17'}
